@@ -145,6 +145,18 @@ func fieldKey(info *types.Info, e ast.Expr) string {
 		return ""
 	}
 	t := s.Recv()
+	// promoted field: name the struct that declares it, not the outer one
+	idx := s.Index()
+	for i := 0; i+1 < len(idx); i++ {
+		if pt, ok := t.(*types.Pointer); ok {
+			t = pt.Elem()
+		}
+		st, ok := t.Underlying().(*types.Struct)
+		if !ok || idx[i] >= st.NumFields() {
+			break
+		}
+		t = st.Field(idx[i]).Type()
+	}
 	if pt, ok := t.(*types.Pointer); ok {
 		t = pt.Elem()
 	}
